@@ -135,14 +135,6 @@ def mapping? (j : Json) : Option (Mapping Nat) := do
   let a ← getArr? j
   a.toList.mapM node?
 
-def castNode : Node Nat → Node Rat
-  | .storage l ts lo => .storage l ts lo
-  | .toll l ts lo => .toll l ts lo
-  | .loop rv tile => .loop rv (tile : Rat)
-  | .compute => .compute
-
-def castMapping (m : Mapping Nat) : Mapping Rat := m.map castNode
-
 def quad (x : Lvl × TId × Rat × Rat) : Json :=
   Json.arr #[ofNat x.1, ofNat x.2.1, ofRat x.2.2.1, ofRat x.2.2.2]
 
